@@ -10,6 +10,7 @@ pub mod h_fsm;
 pub mod h_loop;
 pub mod h_expr;
 pub mod h_content;
+pub mod h_plat;
 
 pub use vnd::*;
 
@@ -21,5 +22,6 @@ pub fn run_harness(name: &str) -> bool {
     if h_loop::run(name) { return true; }
     if h_expr::run(name) { return true; }
     if h_content::run(name) { return true; }
+    if h_plat::run(name) { return true; }
     false
 }
